@@ -683,9 +683,10 @@ impl<T> ValVec32<T> {
             )));
         }
 
-        // SAFETY: Index is bounds checked
+        // SAFETY: Index is bounds checked, so the slot is initialised; the
+        // assignment drops the element it replaces.
         unsafe {
-            ptr::write(self.ptr.as_ptr().add(index as usize), value);
+            *self.ptr.as_ptr().add(index as usize) = value;
         }
         Ok(())
     }
